@@ -50,7 +50,7 @@ def gen_meta(rng, density):
         if rng.random() < density * 0.5:
             k = rng.randint(0, 3)
             out[nm] = [rng.choice(["m", "kg", "none", "1850", "2.0", "true", "[1]"]), rng.randint(-3, 40), rng.choice([0.5, 1.25, -2.0, 0.0]),
-                       [rng.randint(0, 9) for _ in range(rng.randint(2, 3))]][k]
+                       [rng.randint(0, 9) for _ in range(rng.randint(2, 3))] if rng.random() < 0.8 else [0, 99.5, rng.randint(1, 5)]][k]
     return out
 
 
